@@ -1,5 +1,6 @@
 import inspect
 import sys
+import threading
 from typing import Callable, Dict, List, Optional, Set, Tuple, Type, Union, Any
 
 from ..utils import exceptions as exc
@@ -82,6 +83,9 @@ class BaseParser:
         self.addition_type = None
         self.name = get_obj_name(obj)
         self.is_local = is_local_var(obj)
+        # forward references are resolved lazily at the first parse, which may be made by several threads at once
+        self._forward_lock = threading.RLock()
+        self._forward_resolving = False
         self.setup()
 
     def make_context(self, context=None, force_error: bool = False):
@@ -209,8 +213,19 @@ class BaseParser:
         return item in self.fields
 
     def resolve_forward_refs(self, local_vars=None, ignore_errors: bool = True):
-        if not self.forward_refs:
+        if not self.forward_refs and not self._forward_resolving:
             return False
+        with self._forward_lock:
+            if not self.forward_refs:
+                # resolved by another thread in the meantime
+                return False
+            self._forward_resolving = True
+            try:
+                return self._resolve_forward_refs(local_vars=local_vars, ignore_errors=ignore_errors)
+            finally:
+                self._forward_resolving = False
+
+    def _resolve_forward_refs(self, local_vars=None, ignore_errors: bool = True):
         clear_refs = []
         resolved = False
         # todo: add resolve hooks so that application code can execute lazy-load type process logic
